@@ -5,14 +5,16 @@
 (*  hp    a generation-0 snapshot existed at the start                       *)
 (*  files name -> {present, c}: c = list of units [g, i] ([0,0] = zeros);    *)
 (*        unit i of generation g: record (i-1) div U, cut class (i-1) mod U  *)
-(*  adm   generations whose captured state the next start may load           *)
+(*  adm   generations whose captured state the next start may load (not the   *)
+(*        failed ones: a snapshot whose write failed captured nothing)        *)
+(*  failed generations whose write failed                                     *)
 (*  load  name -> {err, recs}: what the specification's loader returns for   *)
 (*        that file (recs = set of [g, k]: record k of generation g)          *)
 (*  nrec, u   the constants Recs and U                                        *)
 EXTENDS MC_Snapshot
 
 Obs == [at |-> pc, kd |-> kd, hp |-> hasPrev, begun |-> begun, done |-> done,
-        files |-> post, adm |-> 0 .. begun,
+        files |-> post, adm |-> Admissible, failed |-> failed,
         load |-> [n \in Names |-> Load(post[n])], nrec |-> Recs, u |-> U]
 Emit == phase = "crashed" => PrintT("@@H " \o ToJson(Obs))
 =============================================================================
